@@ -2560,6 +2560,56 @@ def generate(ctx):
              "only Functional defines grad")]
 
 
+def _function_panel(rng):
+    """`Function` with three complex arguments f(a,b,c) = (A0 a) * (A1 b) * (A2 c): for every slot, jvp = finite difference in
+    that slot, vjp(conjugate=True) and jacobian(...).adj adjoint to it, vjp(conjugate=False) the plain transpose, the
+    evaluation block of include_eval, cvjp(jidx) = vjp(conjugate=True)"""
+    import jax.numpy as jnp
+    import scico
+    import scico.numpy as snp
+    from scico.function import Function
+
+    dt = np.complex128
+    ns, m = [2, 1, 2], 2
+    As = [jnp.asarray(G.dy(rng, (m, k), True), dtype=dt) for k in ns]
+    X = [snp.array(np.asarray(G.dy(rng, (k,), True), dtype=dt)) for k in ns]
+    W = snp.array(np.asarray(G.dy(rng, (m,), True), dtype=dt))
+
+    def ev(a, b, c):
+        return (As[0] @ a) * (As[1] @ b) * (As[2] @ c)
+
+    Fn = Function(tuple((k,) for k in ns), output_shape=(m,), eval_fn=ev, input_dtypes=dt, output_dtype=dt)
+    for idx in range(3):
+        V = snp.array(np.asarray(G.dy(rng, (ns[idx],), True), dtype=dt))
+        h = 2.0**-10
+        Xp, Xm = list(X), list(X)
+        Xp[idx], Xm[idx] = X[idx] + h * V, X[idx] - h * V
+        fd = (np.asarray(Fn(*Xp)) - np.asarray(Fn(*Xm))) / (2 * h)
+        val, jv = Fn.jvp(idx, V, *X)
+        if not np.allclose(np.asarray(val), np.asarray(Fn(*X))) or not np.allclose(np.asarray(jv), fd, rtol=1e-5, atol=1e-5):
+            return {"Function": "product of three linear maps", "index": idx, "jvp": G.enc(np.asarray(jv)), "finite_difference_in_slot": G.enc(fd)}
+        lhs = float(np.real(np.sum(np.conj(np.asarray(W)) * fd)))
+        cands = [("vjp(conjugate=True)", Fn.vjp(idx, *X, conjugate=True)[1](W)), ("vjp()", Fn.vjp(idx, *X)[1](W)),
+                 ("cvjp(jidx)", scico.cvjp(ev, *X, jidx=idx)[1](W)[0])]
+        for inc in (False, True):
+            J = Fn.jacobian(idx, *X, include_eval=inc)
+            je, ja = J(V), J.adj(W)
+            jb = list(je.arrays) if hasattr(je, "arrays") else [je]
+            ab = list(ja.arrays) if hasattr(ja, "arrays") else [ja]
+            if len(jb) != (2 if inc else 1) or not np.allclose(np.asarray(jb[-1]), fd, rtol=1e-5, atol=1e-5) or (inc and not np.allclose(np.asarray(jb[0]), np.asarray(Fn(*X)))):
+                return {"Function.jacobian": f"index={idx}, include_eval={inc}", "blocks": len(jb), "jacobian(v)": G.enc(np.asarray(jb[-1])), "finite_difference_in_slot": G.enc(fd)}
+            cands.append((f"jacobian(include_eval={inc}).adj", ab[-1]))
+        for name, gw in cands:
+            rhs = float(np.real(np.sum(np.conj(np.asarray(gw)) * np.asarray(V)))) if np.asarray(gw).shape == np.asarray(V).shape else float("nan")
+            if not abs(lhs - rhs) <= 1e-5 * (1 + abs(lhs)):
+                return {"Function": name, "index": idx, "Re<w,J v>": lhs, "Re<G w,v>": rhs}
+        gt = np.asarray(Fn.vjp(idx, *X, conjugate=False)[1](W))
+        lt, rt = complex(np.sum(np.asarray(W) * fd)), complex(np.sum(gt * np.asarray(V)))
+        if not abs(lt - rt) <= 1e-5 * (1 + abs(lt)):
+            return {"Function": "vjp(conjugate=False)", "index": idx, "sum w_i (J v)_i": [lt.real, lt.imag], "sum vjp(w)_i v_i": [rt.real, rt.imag]}
+    return None
+
+
 def _targeted_oracles(ctx):
     """property oracles on the implementation for the facts the generated tables are about (run when a generated
     obligation no longer checks): a failing input where the changed source really breaks the property"""
@@ -2618,6 +2668,32 @@ def _targeted_oracles(ctx):
             return r
     for br in range(4):
         r = linadj_oracle({"branch": br, "M": G.enc(G.dy(rng, (2, 2), True)), "y": G.enc(G.dy(rng, (2,), True))})
+        if r is not None:
+            return r
+    for kinds_, out in (([False, True], "Re"), ([True, False], "C"), ([True, True], "Re")):
+        r = linadj2_oracle({"kinds": kinds_, "cout": out == "C", "realout": out == "Re", "M1": G.enc(G.dy(rng, (2, 2), True)),
+                            "M2": G.enc(G.dy(rng, (2, 1), True)), "y": G.enc(G.dy(rng, (2,), out == "C"))})
+        if r is not None:
+            return r
+    # jacrev rows (single argument and argnums=(0,1))
+    M = G.dy(rng, (2, 3), True)
+    tj = {"k": "sqL2Loss", "s": 1.0, "op": {"kind": "matrix", "m": 2, "M": G.enc(M)}, "y": G.enc(G.dy(rng, (2,), True)), "w": None}
+    xj = G.dy(rng, (3,), True)
+    for row in range(2):
+        r = jacrev_oracle({"tag": "jacrev", "tree": tj, "n": 3, "cplx": True, "x": G.enc(xj), "row": row})
+        if r is None:
+            r = api_oracle({"tag": "api", "tree": tj, "n": 3, "cplx": True, "x": G.enc(xj), "sizes": [2, 1], "row": row})
+        if r is not None:
+            return r
+    # Function.jvp / vjp (both flags) / jacobian (with and without include_eval) / cvjp(jidx) over every slot
+    r = _function_panel(rng)
+    if r is not None:
+        return r
+    # operator algebra: F(G) - a*F
+    for cplx_ in (True, False):
+        t_ = {"k": "sub", "F": _gen_optree(rng, 2, 2, cplx_, 2), "G": {"k": "smul", "a": [0.5, 1.0 if cplx_ else 0.0], "side": "l", "F": _gen_optree(rng, 2, 2, cplx_, 0)}}
+        r = optree_oracle({"tree": t_, "n": 2, "m": 2, "cplx": cplx_, "u": G.enc(G.dy(rng, (2,), cplx_, bits=2, scale=1.0)),
+                           "v": G.enc(G.dy(rng, (2,), cplx_, bits=2, scale=1.0)), "w": G.enc(G.dy(rng, (2,), cplx_, bits=2, scale=1.0))})
         if r is not None:
             return r
     hist = [{"k": "new", "s": 1.5}, {"k": "use", "obj": 0}, {"k": "mul", "obj": 0, "c": 3.0, "side": "l"}, {"k": "div", "obj": 0, "c": 4.0},
